@@ -26,6 +26,8 @@ pub enum Op {
     DropG { g: usize },
     GInto { g: usize, h: usize },
     GDeref { g: usize },
+    /// `Guard::from_inner`: an owning guard made from a handle (sequential mode)
+    GFrom { h: usize, g: usize },
     Store { c: usize, h: usize },
     Swap { c: usize, h: usize, out: usize },
     Cas { c: usize, cur: Cur, new: usize, g: usize },
@@ -55,6 +57,7 @@ impl Op {
             DropG { g } => format!("dropg g{}", g),
             GInto { g, h } => format!("ginto g{} h{}", g, h),
             GDeref { g } => format!("gderef g{}", g),
+            GFrom { h, g } => format!("gfrom h{} g{}", h, g),
             Store { c, h } => format!("store c{} h{}", c, h),
             Swap { c, h, out } => format!("swap c{} h{} h{}", c, h, out),
             Cas { c, cur, new, g } => format!(
@@ -91,6 +94,7 @@ impl Op {
             ["dropg", g] => Op::DropG { g: r(g)? },
             ["ginto", g, h] => Op::GInto { g: r(g)?, h: r(h)? },
             ["gderef", g] => Op::GDeref { g: r(g)? },
+            ["gfrom", h, g] => Op::GFrom { h: r(h)?, g: r(g)? },
             ["store", c, h] => Op::Store { c: r(c)?, h: r(h)? },
             ["swap", c, h, o] => Op::Swap { c: r(c)?, h: r(h)?, out: r(o)? },
             ["cas", c, cur, new, g] => Op::Cas {
